@@ -30,5 +30,5 @@ C19_WRAP = -Wl,--wrap=malloc,--wrap=calloc,--wrap=realloc,--wrap=free
 c19: $(OUT)/c19
 
 $(OUT)/c19: /verif/mod/c19_deflate.c /verif/mod/c19_io.h /verif/mod/c19_client.h /verif/mod/c19_cases.h /verif/mod/c19.mk $(C19_MODSRC) $(C19_ZSRC) $(C19_HDR) $(GEN)/def/generated/cjet_config.h | $(OUT)
-	$(CC) $(CFLAGS) -fno-sanitize=nonnull-attribute -D_GNU_SOURCE -DNO_GZIP -I$(C19_S)/zlib -Wno-implicit-fallthrough \
+	$(CC) $(CFLAGS) -fno-sanitize=nonnull-attribute -D_GNU_SOURCE -DC19_SRCROOT=\"$(REPO)/src/\" -DNO_GZIP -I$(C19_S)/zlib -Wno-implicit-fallthrough \
 		-o $@ /verif/mod/c19_deflate.c $(C19_MODSRC) $(C19_ZSRC) $(C19_WRAP)
